@@ -1060,3 +1060,49 @@ Proof.
   - intro Hn. assert (E : same ChObj (s_cfg si) (s_cfg sj)) by (apply (stable_between Repaired tr i j si sj ChObj); auto).
     cbn in E. rewrite H6. apply cfg_eta; cbn; congruence.
 Qed.
+
+(** ** The live file changes only by the rename step *)
+
+Lemma changing_live : forall s c g s', changing s c g = Some s' -> s_live s' = s_live s.
+Proof.
+  intros s c g s' H. unfold changing in H. destruct (find_cmd (s_cmds s) c) as [x|]; [|discriminate].
+  destruct (c_st x); try discriminate; injection H as H; subst s'; reflexivity.
+Qed.
+
+Theorem live_changes_only_at_rename : forall s e s',
+  snap_step Repaired s e = Some s' -> s_live s' <> s_live s -> exists c, read e = VRename c.
+Proof.
+  intros s e s' H Hne. unfold snap_step in H.
+  destruct (core Repaired s (read e)) as [s0|] eqn:Hc; [|discriminate]. injection H as H. subst s'.
+  cbn [tick s_live] in Hne.
+  destruct (read e) eqn:Hr; cbn [core] in Hc; try (eexists; reflexivity); exfalso; apply Hne.
+  - injection Hc as Hc. subst s0. reflexivity.
+  - destruct (nmem c (s_used s)); [discriminate|]. injection Hc as Hc. subst s0. reflexivity.
+  - destruct (find_cmd (s_cmds s) c) as [x|]; [|discriminate].
+    destruct (find_writer (s_writers s) c); [discriminate|].
+    destruct (c_st x); try discriminate; injection Hc as Hc; subst s0; reflexivity.
+  - destruct (nget (s_names s) svc); [|discriminate]. eapply changing_live; eauto.
+  - eapply changing_live; eauto.
+  - eapply changing_live; eauto.
+  - destruct (find_cmd (s_cmds s) c) as [x|]; [|discriminate].
+    destruct (find_writer (s_writers s) c); [discriminate|].
+    destruct (c_st x); try discriminate;
+      (destruct (negb (nlist_eqb (sort_ids svcs) (g_set (s_cfg s)))); [discriminate|]);
+      (destruct (negb (Nat.eqb (length (s_writers s)) 0)); [discriminate|]);
+      injection Hc as Hc; subst s0; reflexivity.
+  - destruct (find_writer (s_writers s) c) as [w|]; [|discriminate].
+    destruct (w_phase w); try discriminate. injection Hc as Hc; subst s0; reflexivity.
+  - destruct (find_writer (s_writers s) c) as [w|]; [|discriminate].
+    destruct (w_phase w); try discriminate. injection Hc as Hc; subst s0; reflexivity.
+  - injection Hc as Hc. subst s0. reflexivity.
+  - discriminate.
+Qed.
+
+(** and on the pinned tree it does change elsewhere: at create (truncation) *)
+Lemma pinned_live_changes_at_create : exists s e s',
+  snap_step Pinned s e = Some s' /\ s_live s' <> s_live s /\ forall c, read e <> VRename c.
+Proof.
+  exists (mkS 1 [] cfg0 (DFile cfg0) (0, 0) None [mkW 0 PCollected [] 0 0 0 true] [mkC 0 CSaved 0] [0] [cfg0]),
+         (mkEv 0 (ACmd 0) KSnapCreate). eexists.
+  split; [reflexivity|]. split; [discriminate|]. intros c. discriminate.
+Qed.
